@@ -20,7 +20,7 @@ import (
 func init() {
 	core.Register(&core.Prop{
 		ID:           "C18",
-		MaxBatch: 24,
+		MaxBatch:     24,
 		Level:        "exploration",
 		Workers:      8,
 		Race:         true,
